@@ -282,6 +282,12 @@ declared variables keep their levels, the internal signal is not raised -/
 theorem loadPickle_step (ext : Nat → Nat) (f : PickleFile) (levels : Bool) (m : Mgr) (h : Good3 m ext)
     (hg : loadGuard f levels m = true) : LoadStep m ext (loadPickle f levels m) := by
   unfold loadPickle
+  have hrefuse : LoadStep m ext ((.error .value, m) : Except Err Roots × Mgr) :=
+    ⟨h, Held2.refl h, rfl, (fun he => by cases he), fun _ _ hv => hv⟩
+  split
+  · exact hrefuse
+  split
+  · exact hrefuse
   have k1 := loadVars_step ext levels f.vars.length f.vars [] m h hg
   cases h1 : loadVars levels f.vars.length f.vars [] m with
   | mk r1 m1 =>
